@@ -21,7 +21,17 @@ HISTORIES around one generator, each compared with the Lean model and the Lean s
   zero_pad  observing / failing sources, int-like left / right, 0 and large pads.
   conc      several generators alive at once (round robin / nested / in sequence), sharing the argument
             objects: each must be the model of its own case taken alone; arguments unchanged.
+  hist      calls of any of the above made one after the other in one FRESH process, mostly with ==-equal
+            parameters of different types (2, Int(2), 2.0, Fraction(2), True) or the same size with another
+            hop: each call is compared with the Lean model/spec of that call taken alone (the model is a pure
+            function of the arguments).
   big       size / hop around 63..65, 127..129, 1023..1025, 4095..4097 with short and long inputs.
+
+Reproducibility.  `conc` and `hist` cases always run in a fresh fork of a child that was forked before this
+process made its first call into the library; a plain case that disagrees is run again alone that way: if it
+agrees alone, the disagreement depends on earlier calls of this process, it is reported with the signature
+`state-between-calls` and the shrinker searches the earlier calls it needs (binary search on the prefix of
+the process' call history, then removal of chunks) and reports the explicit `hist` case.
 
 Items travel as TAGGED JSON (1, 1.0 and True are different items; `{"o": k}` = k-th source object,
 checked by identity) so that a change that copies or casts the items is seen.
@@ -39,7 +49,8 @@ ID = "C08"
 RULE = ("exhaustive (len x size x hop x route) grid on finished inputs, exhaustive (len x size x hop x ending) "
         "grid of observing sources that end / fail at every position, small exhaustive grids of caller-edit and "
         "live-source histories, random larger cases of every entry incl. Stream-subclass / thub / int-like-parameter "
-        "routes, interleaved generators, and sizes/hops around powers of two up to 4097; a case is non-trivial "
+        "routes, interleaved generators, call histories in a fresh process, long runs (thousands of blocks) and "
+        "sizes/hops around powers of two up to 4097; a case is non-trivial "
         "when the impl yields at least one block (or zero_pad has non-empty output); distinct = distinct JSON case")
 TRUSTED = [
     "hand-written Lean model ALV/Model/C08.lean + C08Hist.lean of lazy_misc.blocks/zero_pad (modelled, not verified: "
@@ -253,6 +264,8 @@ def generate(rng, tier, scale=1):
                       "route": rng.choice(["func", "stream", "iter"])})
     for _ in range((1500 if quick else 12000) * scale):
         cases.append(_random_case(rng))
+    for _ in range((150 if quick else 1500) * scale):
+        cases.append(_random_hist(rng))
     return [c for c in cases if valid(c)]
 
 
@@ -280,10 +293,33 @@ def _edits(rng, size, nblocks, dense=False):
     return eds
 
 
-def _random_case(rng):
+def _random_hist(rng):
+    """calls made one after the other in the same (fresh) process, mostly with ==-equal parameters of
+    different types or the same size with another hop: state kept between calls would show"""
+    size, hop, _n = _shape(rng, 8)
+    steps = []
+    for _ in range(rng.randint(2, 5)):
+        u = rng.random()
+        sh = (size, hop) if u < .5 else (size, _shape(rng, 8)[1]) if u < .75 else None
+        st = _random_case(rng, sh, ["trace", "mut", "live", "route", "ptype", "ptype", "plain", "plain", "zp"])
+        steps.append(st)
+    return {"entry": "hist", "steps": steps}
+
+
+def _random_case(rng, shape=None, kinds=None):
     size, hop, n = _shape(rng)
+    if shape is not None:
+        size, hop = shape
+        n = max(0, rng.choice([0, size - 1, size, size + 1, rng.randint(0, 30), size + 2 * hop, size + 2 * hop - 1]))
     pad = rng.choice(PAD_POOL)
-    kind = rng.choice(["trace", "trace", "mut", "live", "route", "route", "route", "ptype", "zp", "conc"])
+    kind = rng.choice(kinds or ["trace", "trace", "mut", "live", "route", "route", "route", "ptype", "zp", "conc",
+                                "hist", "hist"])
+    if kind == "hist":
+        return _random_hist(rng)
+    if kind == "plain":
+        return {"entry": "blocks", "size": size, "hop": hop, "pad": pad,
+                "xs": _items(rng, n, rng.choice(["int", "hetero", "ident"])),
+                "route": rng.choice(["func", "stream", "iter"])}
     flavour = rng.choice(["int", "hetero", "ident"])
     if kind == "trace":
         return {"entry": "trace", "size": size, "hop": hop, "pad": pad, "xs": _items(rng, n, flavour),
@@ -310,8 +346,8 @@ def _random_case(rng):
             c["pad"] = rng.choice([None, 0, "pad"])
         else:
             c["xs"] = _items(rng, n, flavour)
-        if route == "stream_hopnone":
-            c["hop"] = size
+        if route == "stream_hopnone" and hop != size:
+            c["route"] = route = "stream"
         if route in ("defaultpad", "stream_defaultpad"):
             c["pad"] = {"f": "0.0"}       # the documented default padval=0.
         if route in ("chg_limit", "chg_append"):
@@ -322,8 +358,8 @@ def _random_case(rng):
         return c
     if kind == "ptype":
         pt = rng.choice(["intsub", "intsub", "bool", "hopfloat", "hopfrac", "sizefloat"])
-        if pt == "bool":
-            size = hop = 1
+        if pt == "bool" and (size, hop) != (1, 1):
+            pt = "intsub"
         return {"entry": "blocks", "size": size, "hop": hop, "pad": pad, "xs": _items(rng, n, flavour),
                 "route": rng.choice(["func", "stream"]), "ptype": pt}
     if kind == "zp":
@@ -352,6 +388,8 @@ def valid(c):
     e = c["entry"]
     if e == "conc":
         return len(c["subs"]) >= 1 and all(valid(s) for s in c["subs"])
+    if e == "hist":
+        return len(c["steps"]) >= 1 and all(s["entry"] not in ("hist", "conc") and valid(s) for s in c["steps"])
     if e == "zero_pad":
         if c.get("ptype") == "bool" and (c["left"] > 1 or c["right"] > 1):
             return False
@@ -812,10 +850,10 @@ def _impl_conc(c):
             "arg_ok": all(len(a) == len(p) and all(x is y for x, y in zip(a, p)) for a, p in args)}
 
 
-def impl(c):
+def _guarded(c, seconds=30):
     import signal
     old = signal.signal(signal.SIGALRM, _alarm)
-    signal.setitimer(signal.ITIMER_REAL, 30)
+    signal.setitimer(signal.ITIMER_REAL, seconds)
     try:
         return _impl(c)
     except _Timeout:
@@ -823,6 +861,93 @@ def impl(c):
     finally:
         signal.setitimer(signal.ITIMER_REAL, 0)
         signal.signal(signal.SIGALRM, old)
+
+
+class _Zygote(object):
+    """A child forked BEFORE this process made its first call into the code under test: it has the
+    library imported and untouched.  Every request (a list of cases to run one after the other) is run
+    in a fresh fork of it, so the result cannot depend on anything run earlier anywhere else.  Used for
+    every history case (`conc`, `hist`), for re-checking a disagreement of a plain case alone, and for the
+    search of the earlier calls a state-dependent disagreement needs."""
+
+    def __init__(self):
+        self.w = self.r = None
+
+    def ensure(self):
+        import os
+        if self.w is not None:
+            return
+        import audiolazy  # noqa: F401  (import only; nothing is called in this process before the fork)
+        r1, w1 = os.pipe()
+        r2, w2 = os.pipe()
+        pid = os.fork()
+        if pid == 0:
+            try:
+                os.close(w1)
+                os.close(r2)
+                self._serve(os.fdopen(r1, "rb"), os.fdopen(w2, "wb"))
+            finally:
+                os._exit(0)
+        os.close(r1)
+        os.close(w2)
+        self.w, self.r = os.fdopen(w1, "wb"), os.fdopen(r2, "rb")
+
+    @staticmethod
+    def _serve(fin, fout):
+        import os
+        import resource
+        while True:
+            line = fin.readline()
+            if not line:
+                return
+            cases = json.loads(line)
+            rr, ww = os.pipe()
+            p = os.fork()
+            if p == 0:
+                try:
+                    os.close(rr)
+                    try:
+                        resource.setrlimit(resource.RLIMIT_AS, (8 << 30, 8 << 30))
+                    except (ValueError, OSError):
+                        pass
+                    try:
+                        outs = [_guarded(c, 60) for c in cases]
+                    except BaseException as e:      # MemoryError, ...
+                        outs = [{"err": "CHILD:" + type(e).__name__}] * len(cases)
+                    with os.fdopen(ww, "wb") as f:
+                        f.write(json.dumps(outs).encode())
+                finally:
+                    os._exit(0)
+            os.close(ww)
+            with os.fdopen(rr, "rb") as f:
+                data = f.read()
+            os.waitpid(p, 0)
+            if not data:
+                data = json.dumps([{"err": "CHILD:died"}] * len(cases)).encode()
+            fout.write(data + b"\n")
+            fout.flush()
+
+    def run(self, cases):
+        """observations of the cases run one after the other in one fresh process"""
+        self.ensure()
+        self.w.write(json.dumps(cases).encode() + b"\n")
+        self.w.flush()
+        return json.loads(self.r.readline())
+
+
+_ZYG = _Zygote()
+_HISTORY = []        # plain cases run in THIS process, in order (a disagreement may depend on them)
+_CONTAM = {}         # key of a state-dependent disagreement -> (position in _HISTORY, Lean payload)
+
+
+def impl(c):
+    _ZYG.ensure()
+    if c["entry"] in ("conc", "hist"):
+        return _ZYG.run([c])[0]
+    obs = _guarded(c)
+    obs["_pos"] = len(_HISTORY)
+    _HISTORY.append(c)
+    return obs
 
 
 def _impl(c):
@@ -838,6 +963,8 @@ def _impl(c):
             return _impl_live(c)
         if e == "conc":
             return _impl_conc(c)
+        if e == "hist":
+            return {"steps": [_impl(st) for st in c["steps"]]}
         return _impl_zero_pad(c)
     except Exception as ex:
         return {"err": err_kind(ex)}
@@ -859,6 +986,8 @@ def _req1(c):
 def request(c):
     if c["entry"] == "conc":
         return {"entry": "conc", "subs": [_req1(s) for s in c["subs"]]}
+    if c["entry"] == "hist":
+        return {"entry": "conc", "subs": [_req1(s) for s in c["steps"]]}
     return _req1(c)
 
 
@@ -889,9 +1018,53 @@ def _cmp_blocks(c, io, drv, out, where=""):
         out.append(("spec", where + "an inner blocks() call made while the outer generator was pulling its source gave wrong blocks"))
 
 
+def _ckey(c):
+    return json.dumps(c, sort_keys=True)
+
+
 def compare(c, io, drv):
+    """A disagreement is reported as it is only when the case disagrees ALONE in a fresh process
+    (so that the replay is self-contained).  A plain case that agrees alone but disagreed here depends on
+    calls made earlier in this process: it is reported as `state-between-calls` and `shrink` turns it
+    into the explicit history (the earlier calls it needs + the case).  A history whose steps all
+    agree when run alone is `state-between-calls` too."""
+    pos = io.pop("_pos", None) if isinstance(io, dict) else None
+    out = _problems(c, io, drv)
+    if not out:
+        return out
+    e = c["entry"]
+    if e == "hist":
+        alone = [_ZYG.run([{"entry": "hist", "steps": [st]}])[0] for st in c["steps"]]   # one fresh process each
+        if all("steps" in o and not _problems(st, o["steps"][0], d) for st, o, d in zip(c["steps"], alone, drv["subs"])):
+            io["_alone_ok"] = True
+        return out
+    if e == "conc":
+        alone = [_ZYG.run([dict(c, subs=[sb])])[0] for sb in c["subs"]]
+        if all(not _problems(dict(c, subs=[sb]), o, {"subs": [d]}) for sb, o, d in zip(c["subs"], alone, drv["subs"])):
+            io["_alone_ok"] = True
+        return out
+    io2 = _ZYG.run([c])[0]
+    out2 = _problems(c, io2, drv)
+    if out2:
+        io.clear()
+        io.update(io2)
+        return out2
+    io["_isolated_ok"] = True
+    _CONTAM[_ckey(c)] = (pos if pos is not None else len(_HISTORY), drv)
+    return [("spec", "agrees when run alone in a fresh process but disagreed after the calls made earlier in this "
+                     "process (state kept between calls): " + "; ".join(d for _k, d in out)[:400])]
+
+
+def _problems(c, io, drv):
     out = []
     e = c["entry"]
+    if e == "hist":
+        if "steps" not in io:
+            return [("model", "impl raised " + io.get("err", "?")), ("spec", "impl raised " + io.get("err", "?"))]
+        for i, (st, o, d) in enumerate(zip(c["steps"], io["steps"], drv["subs"])):
+            for k, msg in _problems(st, o, d):
+                out.append((k, "call %d of %d (%s): %s" % (i + 1, len(c["steps"]), st["entry"], msg)))
+        return out
     if e == "blocks":
         _cmp_blocks(c, io, drv, out)
     elif e == "conc":
@@ -955,6 +1128,8 @@ def _ev(events, raised):
 
 
 def nontrivial(c, io):
+    if c["entry"] == "hist":
+        return any(nontrivial(st, o) for st, o in zip(c["steps"], io.get("steps", [])))
     if c["entry"] == "conc":
         return any(o.get("blocks") for o in io.get("subs", []))
     return bool(io.get("blocks") or io.get("out") or io.get("events"))
@@ -972,6 +1147,16 @@ def tally(eng, c, io):
     eng.count("entry", e)
     if "err" in io:
         eng.count("impl_error", io["err"])
+    if e == "hist":
+        st = c["steps"]
+        eng.count("hist_calls", len(st))
+        eng.count("hist_entries", "+".join(sorted({x["entry"] for x in st})))
+        sh = [(x["size"], x["hop"]) for x in st if "size" in x]
+        eng.count("hist_shared", "same (size,hop) twice" if len(set(sh)) < len(sh) else
+                  "same size twice" if len({a for a, _b in sh}) < len(sh) else "no shared parameter")
+        pts = {x.get("ptype", "int") for x in st if x["entry"] == "blocks"}
+        eng.count("hist_param_types", "+".join(sorted(pts)) or "-")
+        return
     if e == "conc":
         eng.count("conc_order", c.get("order"))
         eng.count("conc_generators", len(c["subs"]))
@@ -1154,7 +1339,73 @@ def _cheap(d):
     return (nfull(d["size"], d["hop"], case_len(d)) + 1) * d["size"] <= 300000
 
 
+def _needs(c, pos, drv):
+    """the earlier calls of this process (a short sub-list of _HISTORY[:pos]) after which `c` disagrees
+    when everything is run in a fresh process"""
+    hist = [h for h in _HISTORY[:pos]]
+
+    def bad(pre):
+        o = _ZYG.run([{"entry": "hist", "steps": pre + [c]}])[0]
+        return "steps" in o and bool(_problems(c, o["steps"][-1], drv))
+    if not bad(hist):
+        return None
+    lo, hi = 0, len(hist)            # smallest prefix after which c disagrees (state, once set, usually stays)
+    while hi - lo > 1:
+        mid = (lo + hi) // 2
+        if bad(hist[:mid]):
+            hi = mid
+        else:
+            lo = mid
+    if bad(hist[hi - 1:hi]):
+        return hist[hi - 1:hi]
+    pre = hist[:hi]
+    chunk = max(1, len(pre) // 2)
+    tests = 0
+    while chunk >= 1 and tests < 80:
+        i = 0
+        while i < len(pre) - 1 and tests < 80:
+            cand = pre[:i] + pre[i + chunk:] if i + chunk < len(pre) else pre[:i] + pre[-1:]
+            tests += 1
+            if len(cand) < len(pre) and bad(cand):
+                pre = cand
+            else:
+                i += chunk
+        chunk //= 2
+    return pre
+
+
 def shrink(c):
+    k = _ckey(c)
+    if k in _CONTAM:
+        pos, drv = _CONTAM[k]
+        pre = _needs(c, pos, drv)
+        if pre is not None and len(pre) <= 12:
+            yield {"entry": "hist", "steps": pre + [c]}
+        return
+    if c["entry"] == "hist":
+        st = c["steps"]
+        for i in range(len(st)):
+            if len(st) > 1:
+                yield dict(c, steps=st[:i] + st[i + 1:])
+        # a parameter shared by several calls goes down in all of them together
+        for k in ("size", "hop"):
+            for v in sorted({x[k] for x in st if k in x}):
+                if v > 1 and sum(1 for x in st if x.get(k) == v) > 1:
+                    new = []
+                    for x in st:
+                        if x.get(k) == v:
+                            x = dict(x, **{k: v - 1})
+                            if x["entry"] == "mut":
+                                x["edits"] = [[op for op in ops if op[0] != "set" or op[1] < x["size"]] for ops in x["edits"]]
+                        new.append(x)
+                    if all(valid(x) for x in new):
+                        yield dict(c, steps=new)
+        for i in range(len(st)):
+            for d in _shrink1(st[i]):
+                if valid(d) and _cheap(d):
+                    d.pop("fast", None)
+                    yield dict(c, steps=st[:i] + [d] + st[i + 1:])
+        return
     if c["entry"] == "trace" and c["size"] * case_len(c) > 10 ** 6:
         # large case: candidates are compared with the Lean spec only (see the driver's "fast")
         for d in _shrink1(c):
@@ -1204,6 +1455,13 @@ def neighbours(c):
 
 def classify(c, io, drv):
     e = c["entry"]
+    if io.get("_isolated_ok") or io.get("_alone_ok"):
+        return "state-between-calls"
+    if e == "hist":
+        for st, o, d in zip(c["steps"], io.get("steps", []), drv.get("subs", [])):
+            if _problems(st, o, d):
+                return classify(st, o, d)         # a call that is wrong on its own: its own signature
+        return "hist:" + io.get("err", "?")
     if e == "blocks":
         r = c.get("route", "func")
         pt = c.get("ptype", "int")
